@@ -37,6 +37,10 @@ SMALL_TOKENS = [1, 2, None, 'a']          # second feature / Environments-level 
 SHIFTS = [0, 2, 'min', 'mean', 'med']
 SCALES = [3, 'minmax', 'std', 'iqr', 'maxabs']
 REDUCED_PAIRS = [(0, 3), (2, 3), (0, 'minmax'), ('min', 'minmax'), ('mean', 'std'), ('med', 'iqr'), (2, 'maxabs'), ('min', 3), (0, 'std')]
+# type / sign of the numbers: int and float, positive and negative values; int and float spellings of numeric shift / scale
+TYPED_TOKENS = [1, 2.5, -3, -1.5, None]
+SHIFTS_T = [0, 0.0, 2, 2.0, 'min', 'mean', 'med']
+SCALES_T = [3, 3.0, 'minmax', 'std', 'iqr', 'maxabs']
 STATS = ['mean', 'median', 'mode']
 STAT_LISTS = [[s] for s in STATS] + [list(p) for p in itertools.product(STATS, repeat=2)]
 
@@ -92,7 +96,7 @@ def col_kind(vals):
 
 def _median(vs):
     s = sorted(vs); n = len(s)
-    return Fraction(s[n // 2]) if n % 2 else Fraction(s[n // 2 - 1] + s[n // 2], 2)
+    return Fraction(s[n // 2]) if n % 2 else (Fraction(s[n // 2 - 1]) + Fraction(s[n // 2])) / 2
 
 
 def _percentile(s, p):      # linear interpolation between closest ranks (the common / numpy default definition)
@@ -108,6 +112,7 @@ def scale_stats(wv, shift, scale):
     """(shift, factor) for the numeric window values `wv`, or None when the statement does not define them
     (no value in the window, a single value for std/iqr, a denominator below the documented 1e-6 threshold)."""
     if not wv: return None
+    wv = tuple(Fraction(v) for v in wv)          # ints and (exactly representable) floats alike
     if shift == 'min': s = -Fraction(min(wv))
     elif shift == 'mean': s = -Fraction(sum(wv), len(wv))
     elif shift == 'med': s = -_median(wv)
@@ -132,8 +137,8 @@ def scale_stats(wv, shift, scale):
 def impute_stat(wv, stat):
     """Acceptable replacement values (list) for the non-missing window values `wv`; None when undefined."""
     if not wv: return None
-    if stat == 'mean': return [float(Fraction(sum(wv), len(wv)))]
-    if stat == 'median': return [float(_median(wv))]
+    if stat == 'mean': return [float(sum(Fraction(v) for v in wv) / len(wv))]
+    if stat == 'median': return [float(_median([Fraction(v) for v in wv]))]
     cnt = Counter(wv); top = max(cnt.values())
     return [v for v, c in cnt.items() if c == top]        # any of the most common values is "the mode"
 
@@ -199,7 +204,7 @@ def ref_scale_col(coltoks, using, shift, scale):
         elif st is None: out.append(('finite',))
         else:
             s, f = st
-            out.append(('num', float(v + s) * f if isinstance(f, float) else float((v + s) * f)))
+            out.append(('num', float(Fraction(v) + s) * f if isinstance(f, float) else float((Fraction(v) + s) * f)))
     return ('num' if st is not None else 'num-degenerate'), out
 
 
@@ -534,10 +539,14 @@ def fails_same(op, cont, cols, params, comp, mode):
     return False
 
 
+def _spell(x): return x if isinstance(x, str) else type(x).__name__
+
+
 @lru_cache(maxsize=200000)
-def minimal_feature(op, cont, col, params, comp, mode):
+def minimal_feature(op, cont, col, params, comp, mode, ptypes=None):
     """Greedy minimisation of one failing column: every missing / absent cell that is not needed for the failure is
-    replaced by a plain number; the description of what remains is the key's discriminating feature."""
+    replaced by a plain number, every float by an int and every negative number by a positive one; the description
+    of what remains is the key's discriminating feature.  (`ptypes` only keeps 0 and 0.0 apart in the cache key.)"""
     col = list(col)
     using = params[2]
     if col_kind([0 if tok(c) is ABS else tok(c) for c in col]) in ('num', 'empty'):
@@ -547,9 +556,26 @@ def minimal_feature(op, cont, col, params, comp, mode):
                     trial = col[:i] + [repl] + col[i + 1:]
                     if fails_same(op, cont, [trial], params, comp, mode):
                         col = trial; break
+    numeric = col_kind([0 if tok(c) is ABS else tok(c) for c in col]) == 'num'
+    if numeric:
+        for i in range(len(col)):
+            for simpler in ((lambda v: int(v)) if isinstance(col[i], float) else None, (lambda v: -v) if isnum(col[i]) and col[i] < 0 else None):
+                if simpler is None or not isnum(col[i]): continue
+                trial = col[:i] + [simpler(col[i])] + col[i + 1:]
+                if fails_same(op, cont, [trial], params, comp, mode): col = trial
     feat = describe([tok(c) for c in col], using)
     if feat == 'no missing values' and mode == 'wrong value':
-        feat += f' shift={params[0] if isinstance(params[0], str) else "number"} scale={params[1] if isinstance(params[1], str) else "number"}'
+        names = []
+        for k, nm in ((0, 'shift'), (1, 'scale')):
+            v = params[k]
+            if isinstance(v, str): names.append(f'{nm}={v}'); continue
+            other = float(v) if isinstance(v, int) else int(v)       # does the failure depend on the int/float spelling?
+            p2 = tuple(other if i == k else x for i, x in enumerate(params))
+            names.append(f'{nm}=number' if fails_same(op, cont, [col], p2, comp, mode) else f'{nm}={_spell(v)}')
+        feat += ' ' + ' '.join(names)
+    if numeric:
+        if any(isinstance(c, float) and c == c for c in col): feat += ' float values'
+        if any(isnum(c) and c < 0 for c in col): feat += ' negative values'
     if op == 'impute':      # name the statistic only when the failure depends on it
         others = [st for st in STATS if st != params[0]]
         if not all(fails_same(op, cont, [col], (st,) + tuple(params[1:]), comp, mode) for st in others):
@@ -587,7 +613,7 @@ def classify(case, params, f):
             if fails_same(op, cont, [cols[j]], params, f.comp, f.mode): culprit = j; break
     if culprit is None:
         return f'{f.comp}|{f.mode}|{shp} only next to a second feature: ' + ' / '.join(describe([tok(c) for c in col], params[2]) for col in cols)
-    return f'{f.comp}|{f.mode}|{shp} ' + minimal_feature(op, cont, tuple(cols[culprit]), params, f.comp, f.mode)
+    return f'{f.comp}|{f.mode}|{shp} ' + minimal_feature(op, cont, tuple(cols[culprit]), params, f.comp, f.mode, tuple(type(x).__name__ for x in params))
 
 
 class C11(Check):
@@ -602,6 +628,7 @@ class C11(Check):
             '(sparse: shift 0 x all scales + 4 rejected pairs; large two-feature sub-spaces: 9 representative pairs), Impute stat in {mean,median,mode} '
             'x indicator x using, Environments.impute with every statistic / list of <=2 statistics, Environments.scale with all 25 pairs. '
             'An evaluation is non-trivial when the reference demands a changed cell or an indicator feature (Environments: output differs from input). '
+            'Type/sign sub-space: all one-feature columns over {1, 2.5, -3, -1.5, None} (same row bounds, list/sparse/scalar) x shift in {0,0.0,2,2.0,min,mean,med} x scale in {3,3.0,minmax,std,iqr,maxabs} x using, and all Impute parameters. '
             'Re-use dimension: for ALL ordered pairs (A,B) of columns over {1,2,5,None} with <=2 rows (thorough: {1,2,5,None,NaN,"a"} and 3 rows over {1,5,None}; '
             'plus one-/two-feature context pairs) ONE Scale / Impute object filters A,A,B,A and every result must satisfy the reference for its own window; '
             'ONE Environments.scale/.impute call over the environments (A,B) is read in the order A,B,A and every member must read as when filtered alone '
@@ -627,7 +654,7 @@ class C11(Check):
                   'dense-tuple, sparse and scalar form is run through the real Scale (25 shift/scale choices x 4 windows) and Impute (3 statistics x indicator x 4 windows) '
                   'and through Environments.scale/impute (all statistic lists of length <=2); each output cell, every other field and the indicator features are compared '
                   'with an exact reference. Exhaustive below the bound, nothing sampled.')
-    LEVEL_NOTE = 'small-scope hypothesis (<=4 rows, <=2 features, 7-symbol cell alphabet); float comparison at 1e-9 relative; deliberate non-demands listed in assumptions'
+    LEVEL_NOTE = 'small-scope hypothesis (<=4 rows, <=2 features, 7-symbol cell alphabet plus the int/float x positive/negative sub-space {1,2.5,-3,-1.5,None} with int and float spellings of numeric shift/scale); float comparison at 1e-9 relative; deliberate non-demands listed in assumptions'
     CASE_TIMEOUT = 60
 
     def setup(self, tier):
@@ -667,6 +694,12 @@ class C11(Check):
                     for cont in ('list', 'sparse', 'scalar'):
                         for col in itertools.product([1, 2, 5, None], repeat=4):
                             if op == 'impute' or None in col: yield {'op': op, 'cont': cont, 'cols': [list(col)]}
+            # type and sign of the numbers: int/float, positive/negative values x int AND float spellings of numeric shift/scale
+            for op in ('scale', 'impute'):
+                for cont in ('list', 'sparse', 'scalar'):
+                    for col in itertools.product(TYPED_TOKENS, repeat=n):
+                        if any(isinstance(c, float) or (c is not None and c < 0) for c in col):
+                            yield {'op': op, 'cont': cont, 'cols': [list(col)], 'pset': 'typed'}
             if n == 2: yield from self.reuse_cases(tier)
             # Environments level (composition): small data alphabet (3 rows and all 25 Scale pairs only in thorough)
             if n <= (2 if tier == 'quick' else 3):
@@ -719,7 +752,10 @@ class C11(Check):
         if case['op'] == 'env2_impute':
             return [(sl, ind, u) for sl in ('mean', ['median'], ['mean', 'mode'], ['mode', 'median']) for ind in (False, True) for u in (None, 1)]
         if case['op'] == 'scale':
-            if case['cont'] == 'sparse':     # shift != 0 is (documentedly) rejected for sparse contexts: a few such combinations suffice
+            if case.get('pset') == 'typed':
+                if case['cont'] == 'sparse': pairs = [(sh, sc) for sh in (0, 0.0) for sc in SCALES_T] + [(2.0, 3.0), ('min', 'maxabs')]
+                else: pairs = [(sh, sc) for sh in SHIFTS_T for sc in SCALES_T]
+            elif case['cont'] == 'sparse':     # shift != 0 is (documentedly) rejected for sparse contexts: a few such combinations suffice
                 pairs = [(0, sc) for sc in SCALES] + [(2, 3), ('min', 'minmax'), ('mean', 'std'), ('med', 'iqr')]
             elif case.get('pset') == 'reduced': pairs = REDUCED_PAIRS
             else: pairs = [(sh, sc) for sh in SHIFTS for sc in SCALES]
